@@ -356,6 +356,9 @@ class CallResolver:
         return LazyCall(expr.callee.name.lexeme, args, kwargs)
 
     def visitVariableExpr(self, expr):
+        if expr.level is not None:
+            # 'f(x[level])': the level would be ignored
+            raise CallResolverError("The subset notation is not available within a function call")
         return LazyVariable(expr.name.lexeme)
 
     def visitLiteralExpr(self, expr):
